@@ -28,7 +28,7 @@ CLAIMS.update({
    ref="§5 C07"),
  "C10": dict(
    text="F4Jumble is shown to be a length-preserving bijection (inv(jumble(m)) = m and jumble(inv(m)) = m) for EVERY message of each instantiated length, with BLAKE2b abstracted by a deterministic mixing function (a Feistel network is invertible for any round function, so the solver decides the structure: split point, round order, G block index, tail xor); invalid lengths are rejected without touching the buffer. ZIP 316 container rules through the public API: a unified address of 0, 1 or 2 receivers is accepted iff typecodes are distinct, not P2PKH+P2SH, not only transparent (error kinds exact, items stored in ascending order); typecode mapping for all u32; per-item rules of Receiver/Fvk/Ivk for ALL u32 typecodes at the item lengths 20/43/64/65 (96/128 thorough); the container byte layer (hook): one Sapling item + 16 padding bytes is accepted iff the padding is exactly HRP||zeros.",
-   note="F4Jumble lengths: 48 quick plus one seeded member of {63,65,128}; 129 and 193 thorough. In the padding harness F4Jumble^-1 is replaced by the identity (its bijectivity is the other harness) and format! by an empty string. BLAKE2b output values, the Bech32/Bech32m/Base58Check string layer (HRP <-> network mapping, checksums, case), ZcashAddress parsing/encoding, containers of more than 2 items and symbolic item framing are outside the claim (string code and symbolic-length Vecs are out of CBMC's reach here). Uses the verif hook zcash_address::verif_hooks.",
+   note="F4Jumble lengths: 48 quick plus one seeded member of {63,65} (all in the thorough tier); 128, 129 and 193 did not finish (experimental). In the padding harness F4Jumble^-1 is replaced by the identity (its bijectivity is the other harness) and format! by an empty string. BLAKE2b output values, the Bech32/Bech32m/Base58Check string layer (HRP <-> network mapping, checksums, case), ZcashAddress parsing/encoding, containers of more than 2 items and symbolic item framing are outside the claim (string code and symbolic-length Vecs are out of CBMC's reach here). Uses the verif hook zcash_address::verif_hooks.",
    ref="§5 C10"),
  "C12": dict(
    text="Narrow: memo bytes survive unchanged. MemoBytes::from_bytes for ALL inputs of length 512, 20 and 0 (stored array = input followed by zeros; as_slice = content without trailing zeros) and 513 (TooLong); encoding of the non-text Memo classes (Empty, Arbitrary, Future) reproduces the bytes. Two kernels of the URI grammar through a hook: parse::indexed_name equals a byte-level reference of paramname[.paramindex] (no leading zero, at most four digits, exact sub-slices) for ALL ASCII strings of length 3 and 7 (5 and 9 thorough); parse::has_duplicate_param is true exactly when an earlier parameter has the same kind, unknown parameters being compared by NAME only (2 earlier parameters, symbolic kinds/names/values).",
@@ -40,11 +40,11 @@ CLAIMS.update({
    ref="§5 C13"),
  "C15": dict(
    text="One insertion step of the scan-queue algebra is decided for ALL ranges over u32 heights, all 7x7 priorities and both force flags: the result of the leaf-level insert is a sorted, gap-free, merged partition of the hull whose priority at EVERY height equals the documented dominance rule applied pointwise; dominance() and join_nonoverlapping() likewise. One step from an arbitrary valid range makes the Rust part inductive over insertion histories.",
-   note="Through the cfg(zcash_librustzcash_verif) hook spanning_tree::verif_hooks. Outside the claim: the SpanningTree recursion over >1 leaf (thorough-tier harness for 2 leaves), the scan_queue SQL (replace_queue_entries, scan_complete, update_chain_tip, suggest_scan_ranges) and termination of syncing.",
+   note="Through the cfg(zcash_librustzcash_verif) hook spanning_tree::verif_hooks. Outside the claim: the SpanningTree recursion over >1 leaf (no 2-leaf harness left symex; kept as experimental), the scan_queue SQL (replace_queue_entries, scan_complete, update_chain_tip, suggest_scan_ranges) and termination of syncing.",
    ref="§5 C15"),
  "C16": dict(
    text="is_canonical_denomination for all Zatoshis and largest_one_two_five for all hi <= 10^12 against the 19-entry table. unconstrained_split (cap 1) for ALL balances and buffers: canonical, non-increasing, <= cap, exact single-note funding, optimistic cost fits, greedy first value, remainder bound. plan() over ANY canonical split of length 0 or 1 with an oracle returning a fresh arbitrary answer on every call: truncation of the split, exact conservation, reserved fees = accepted answer x fee, generator never consulted. Over-charging oracle (any usize answer) on the real planner: no panic, no wrap.",
-   note="Assume-guarantee: plan() is decided with unconstrained_split stubbed by a superset of its behaviours (one stub per concrete length; a symbolic-length Vec exhausted 30 GB). Preparation fee bounded by 10^6 zatoshi (bounds the step-down loop; checked by unwinding assertions); caps 2-3 thorough, caps 4..64 and splits longer than 1 inside plan() outside the claim. Uses the verif hook for unconstrained_split.",
+   note="Assume-guarantee: plan() is decided with unconstrained_split stubbed by a superset of its behaviours (one stub per concrete length; a symbolic-length Vec exhausted 30 GB). Preparation fee bounded by 10^6 zatoshi (bounds the step-down loop; checked by unwinding assertions); caps 2..64 (cap 2 exhausted 26 GB) and splits longer than 1 inside plan() outside the claim. Uses the verif hook for unconstrained_split.",
    ref="§5 C16"),
  "C17": dict(
    text="Every generator word is kani::any(), so 'for every random stream' is the query: delays <= cap for any logarithm value; schedules non-decreasing/saturating with canonical expiries; closed form of expiry_height for all u32; shuffles are permutations (n<=4, Lemire rejection un-stubbed); anchor draws on the ZIP 318 grid and others: Some => on grid, above activation, >= funding, below the most recent boundary, age <= 4, None iff no candidate; classification monotone over the whole evidence lattice. The wake-up schedule clause is NOT decided (harness did not finish).",
